@@ -1,9 +1,17 @@
 # One entry per claimed property. `check(pid, category, text, note, technique, design_ref)`.
 check("C17", "model_checking",
-      "TLC model-checks the lexer specification SyltLex (tiling, maximal munch, text-derived positions, determinism up to error extents) "
-      "over all texts of length <=3, then validates the token list the real tokenizer produces for every text of index-addressed universes "
-      "(all strings of length <=4/5 over an 18-character alphabet, all 1- and 2-fragment and sampled 3-fragment concatenations of 105 lexical fragments, "
-      "random longer texts) as a behaviour of that specification, evaluating the spec invariants in every state. Bounded-exhaustive, not a proof.",
-      "Trusted: TLC, the SyltLex module as the reading of 'documented token set', the recorder c17 (maps Token variants to kinds). "
-      "Non-ASCII characters are shown to TLC as '@' (character-for-character abstraction); characters outside the BMP and Unicode digits are not explored.",
-      "TLA+ lexer spec + TLC trace validation of recorded token streams (index-addressed universes)", "DESIGN.md 5.1, 8/C17")
+      "TLC model-checks the lexer specification SyltLex (tiling, maximal munch, text-derived positions, determinism up to error extents, "
+      "characters outside the token alphabet confined to strings/comments/error tokens) over all texts of length <=3 over 25 symbols, then "
+      "validates the token list the real tokenizer produces for every text of index-addressed universes as a behaviour of that specification, "
+      "evaluating the spec invariants in every state: all strings of length <=4/5 over an 18-character alphabet; all 1- and 2-fragment and "
+      "sampled 3-fragment concatenations of 120 lexical fragments; random longer texts; all strings of length <=3 (+ sampled 4) over 9 token "
+      "characters and 15 representatives of 8 classes of non-token characters (non-ASCII letters, decimal digits incl. non-BMP, other numerics, "
+      "other white space, combining marks, connectors, BOM, NUL/controls/emoji), each representative between 33 x 27 contexts; all strings of "
+      "length <=5/6 over {1 . e E + - a _} (number grammar) and sampled embeddings; 3 024 file beginnings x bodies x endings (BOM, CR LF, lone "
+      "CR, NUL, no final newline ...); sampled texts with up to 65 537 lines / 131 073 columns. Bounded-exhaustive, not a proof.",
+      "Trusted: TLC, the SyltLex module as the reading of 'documented token set' (ASCII-only identifier, digit and blank classes), the recorder "
+      "c17 (maps Token variants to kinds and every character outside the token alphabet to the ASCII stand-in of its Unicode class by a table "
+      "that is cross-checked against std's predicates). Error-token extents are unconstrained. For the long texts only the window and sampled "
+      "tokens of the periodic prefix are compared (positions still derived from the whole text). Two known findings (C17.U1, C17.U2: the [\\d] "
+      "of the number regexes is Unicode-aware) are reported as KNOWN-FINDING.",
+      "TLA+ lexer spec + TLC trace validation of recorded token streams (index-addressed universes, sharded)", "DESIGN.md 5.1, 8/C17; docs/C17.md")
